@@ -70,7 +70,7 @@ func c05codec(c *Ctx, p *load.Program, pkgPath, prefix string) {
 		switch f {
 		case "uint32(Timestamp.Unix())":
 			return "Timestamp"
-		case "uint8(len(Signatures))":
+		case "uint8(len(Signatures))", "uint8(numSignatures)":
 			return "len(Signatures)"
 		case "sig.Index", "sig.Signature":
 			return f
